@@ -618,7 +618,7 @@ fn case_schema(sh: &mut Shard, idx: u64, r: &mut Rng) {
         Ok(Ok(t2)) if t2 == t && to_bytes(&t2) == tb => {}
         other => sh.violate(idx, "schema-roundtrip", format!("schema:type:{}", util::hex_sig(&tb)), format!("Type does not round-trip: {:?}", other.map(|x| x.is_ok())), json!({"type_bytes_hex": vmon_core::hex(&tb), "type": format!("{:?}", t).chars().take(1500).collect::<String>()})),
     }
-    sh.nontrivial(vmon_core::mix(&[5, vmon_core::fast_hash(&versioned)]));
+    util::nt(sh, vmon_core::mix(&[5, vmon_core::fast_hash(&versioned)]));
 }
 
 // ------------------------------------------------------------------ conversions
@@ -695,7 +695,7 @@ fn case_convert(sh: &mut Shard, idx: u64, r: &mut Rng) {
             other => sh.violate(idx, "json-to-bytes", sig("serial-normal-form"), format!("serial_value(normal form) = {:?}", other.map(|x| x.map(|b| vmon_core::hex_short(&b, 60)).map_err(|e| e.display(false)))), case()),
         }
         if bytes.len() >= 4 {
-            sh.nontrivial(vmon_core::mix(&[6, vmon_core::fast_hash(&tbytes), vmon_core::fast_hash(&bytes)]));
+            util::nt(sh, vmon_core::mix(&[6, vmon_core::fast_hash(&tbytes), vmon_core::fast_hash(&bytes)]));
         }
         sh.sample(|| case());
         // hostile bytes under the same type
